@@ -16,13 +16,14 @@ EXTENDS GridSeq, Json, IOUtils, TraceConsts
 VARIABLES tid, l, tr, nrej
 
 FIdOf(r) == IF r \in 1..Len(TIds) THEN TIds[r] ELSE 0
-tvars == <<rows, ver, given, op, res, tid, l, tr, nrej>>
+tvars == <<rows, ver, given, op, res, parked, tid, l, tr, nrej>>
 
 TInit == \E f \in {JsonDeserialize(IOEnv.TRACE_FILE)} :
          /\ tid \in 1..Len(f)
          /\ tr = f[tid]
          /\ l = 1
          /\ nrej = 0
+         /\ parked = NoGrid
          /\ rows = <<>>
          /\ ver = f[tid].ver
          /\ given = f[tid].given
@@ -52,15 +53,23 @@ FirstBadObs(rw, obs) ==
 \* model prints one REJECT line (naming the failing clause) and the validation re-synchronises on
 \* the logged state, so that every later event is still judged.  ACCEPT is printed at the end of a
 \* trace iff no step was rejected (nrej = 0); DONE carries the number of rejected steps.
+\* A "switch" event: the history moves to the other live grid (the parent a grid was derived from, or back).
+\* Its logged rows / version must be exactly what the model parked -- whatever was done to the grid used in
+\* between -- and its observations (lookups by id above all) are judged against those rows.
 TNext ==
     /\ l <= Len(tr.evs)
     /\ LET ev   == tr.evs[l]
-           outs == Outcomes(Cur, ev)
-           good == \E o \in outs : o.res = ev.res /\ o.rows = ev.rows /\ o.ver = ev.ver
+           sw   == ev.name = "switch"
+           outs == IF sw THEN {} ELSE Outcomes(Cur, ev)
+           good == IF sw THEN parked.has /\ ev.rows = parked.rows /\ ev.ver = parked.ver /\ ev.res = <<"None">>
+                   ELSE \E o \in outs : o.res = ev.res /\ o.rows = ev.rows /\ o.ver = ev.ver
            bad  == IF good THEN FirstBadObs(ev.rows, ev.obs) ELSE 0
            rej  == ~good \/ bad # 0
        IN /\ ~good => PrintT(<<"REJECT", tid, l,
-                              (IF ~\E o \in outs : o.res = ev.res THEN "result_not_allowed"
+                              (IF sw THEN (IF ~parked.has THEN "switch_without_parked_grid"
+                                           ELSE IF ev.rows # parked.rows THEN "other_grid_rows_changed"
+                                           ELSE "other_grid_version_changed")
+                               ELSE IF ~\E o \in outs : o.res = ev.res THEN "result_not_allowed"
                                ELSE IF ~\E o \in outs : o.rows = ev.rows THEN "rows_not_allowed"
                                ELSE IF ~\E o \in outs : o.ver = ev.ver THEN "version_not_allowed"
                                ELSE "outcome_not_jointly_allowed"), 0>>)
@@ -68,7 +77,9 @@ TNext ==
                 LET B == {i \in 1..Len(ev.obs) : ev.obs[i].k = k /\ ~ObsOk(ev.rows, ev.obs[i])}
                 IN B # {} => PrintT(<<"REJECT", tid, l, "obs_" \o k, CHOOSE i \in B : \A j \in B : i <= j>>)
           /\ rows' = ev.rows /\ ver' = ev.ver
-          /\ given' = (given \/ ev.res = <<"grid">>)
+          /\ given' = (IF sw /\ parked.has THEN parked.given ELSE (given \/ ev.res = <<"grid">>))
+          /\ parked' = (IF sw /\ parked.has THEN ParkOf(Cur)
+                        ELSE IF ~sw /\ ev.res = <<"grid">> THEN ParkOf(Cur) ELSE parked)
           /\ op' = [name |-> ev.name] /\ res' = ev.res
           /\ l' = l + 1
           /\ nrej' = nrej + (IF rej THEN 1 ELSE 0)
@@ -76,5 +87,5 @@ TNext ==
     /\ UNCHANGED <<tid, tr>>
 
 TSpec == TInit /\ [][TNext]_tvars
-TView == <<rows, ver, given, tid, l, nrej>>
+TView == <<rows, ver, given, parked, tid, l, nrej>>
 =============================================================================
